@@ -71,6 +71,12 @@ def evaluate(eng, prop, cases, impl, model, spec):
                 findings.append(Finding(c, "divergence", d, "implementation %r, model %r" % (
                     ir[d] if d < len(ir) else "<missing>", mr[d] if d < len(mr) else "<missing>"),
                     ir, mr, sr, name=eng.correspondence_name(prop)))
+    if hasattr(eng, "judge_all"):
+        have = {id(f.case) for f in findings if f.kind == "judge"}
+        for f in eng.judge_all(prop, cases, impl, model, spec):
+            if id(f.case) not in have:
+                # a cross-case judge failure outranks a divergence on the same case
+                findings = [g for g in findings if g.case is not f.case] + [f]
     return findings
 
 
@@ -92,6 +98,8 @@ def run_all(eng, prop, harness, cases):
 
 def shrink(eng, prop, harness, finding):
     """ddmin the case while the same kind of finding persists."""
+    if getattr(finding, "group", None):
+        return finding        # cross-case finding: the group is the replay
     fixed = eng.header_len(finding.case)
 
     def fails(lines):
@@ -133,7 +141,10 @@ def check(prop, tier, seed, replay=None):
             # 4. corpus, then generated inputs
             if replay:
                 doc = json.load(open(replay))
-                cases = [Case("replay", doc["case"][1:], origin="replay")]
+                if doc.get("group"):
+                    cases = [Case(g["name"], g["lines"][1:], tags=g.get("tags"), origin="replay") for g in doc["group"]]
+                else:
+                    cases = [Case("replay", doc["case"][1:], origin="replay")]
             else:
                 cases = core.load_corpus(prop, eng.NAME)
                 for k in known:
@@ -188,7 +199,10 @@ def check(prop, tier, seed, replay=None):
             print("KNOWN-FINDING: property=%s %s (%d case(s) this run)" % (prop, k.get("what", kid), n))
         paths = []
         for f, suffix in violations:
-            p = core.write_replay(prop, eng.NAME, f, seed)
+            extra = None
+            if getattr(f, "group", None):
+                extra = {"group": [{"name": c.name, "lines": c.lines, "tags": c.tags} for c in f.group]}
+            p = core.write_replay(prop, eng.NAME, f, seed, extra)
             paths.append(p)
             print("VIOLATION property=%s replay=%s%s" % (prop, p, suffix))
             log("  kind=%s op#%s: %s" % (f.kind, f.idx, str(f.detail)[:500]))
